@@ -1,8 +1,14 @@
 """C18 -- The meta application never reveals secrets and always renders.
 
+The code of the views is followed wherever it is defined (``_view_functions``): everything in meta.py, the methods of the
+peripheral classes and of the meta application (bases / mixins included) in whatever module of the package they live, the
+functions installed as a ``get_context``, and every function of the tree a view hands a host object to -- a helper, a
+peripheral or a view method that moved to another module and is imported back is judged exactly as before.
+
 Decided:
-  R18.a  who may read resource values -- a value-flow analysis over meta.py.  Sources are the reads of a ``.resources``
-         mapping and of ``get_defaults_dict()``; the flow is followed through local aliases, copies (``dict(m)``,
+  R18.a  who may read resource values -- a value-flow analysis over the views.  Sources are the reads of a ``.resources``
+         mapping (also ``getattr(x, 'resources')`` and the glom specs ``glom(x, 'resources')`` / ``glom(x, T.resources)``; a glom
+         path *through* the mapping reads a value) and of ``get_defaults_dict()``; the flow is followed through local aliases, copies (``dict(m)``,
          ``sorted(m.items())``, ``enumerate``), helper functions / (static)methods of the tree the mapping, a pair or
          a value is handed to (also nested functions, which in addition read the tagged locals of their enclosing
          function), comprehensions, generators and lambdas.  Every occurrence must be one of
@@ -20,8 +26,8 @@ Decided:
          element of the returned comprehension, possibly through locals and the helper's return value).  Parameter
          defaults of endpoints are consulted by name only.  No peripheral context stores an Application / route /
          middleware / request object itself (conventional names, aliases, loop variables over .routes /
-         .middlewares / .peripherals, parameters of helpers they are handed to), so the JSON encoder cannot reach a
-         value by traversal.  A sensitive mapping handed to the constructor of a class of the tree is followed through
+         .middlewares / .peripherals, parameters of helpers they are handed to) nor a list of them (``x.routes`` /
+         ``x.middlewares`` itself, a copy, a local that names one), so the JSON encoder cannot reach a value by traversal.  A sensitive mapping handed to the constructor of a class of the tree is followed through
          the field it is stored in (``self.f = m``): every method that may run on such an object is judged with the
          field tagged (membership / names only), the object itself must not escape, ``getattr(self, name)`` is
          followed when ``name`` runs over a constant table of method names.  Where the value is listed it is a text
@@ -29,7 +35,9 @@ Decided:
   R18.b  middleware info: where get_mw_infos (loop, comprehension, map(), generator or row helper) holds one
          middleware, only the class name, provides, requires and repr(mw) are read; no ``__repr__`` / ``__str__`` of
          Middleware or a subclass reads -- itself or through the methods it calls -- an attribute whose name
-         contains 'secret' or 'key', ``vars()`` / ``__dict__`` or an attribute chosen at run time;
+         contains 'secret' or 'key', ``vars()`` / ``__dict__`` or an attribute chosen at run time; the same list of
+         attributes holds wherever else a view iterates over the middlewares of an application / a route, and no view
+         function reads an attribute named like key material (``secret_key``, ``signing_key``, ..) from any object;
   R18.c  sections fail soft: the inject(<peripheral>.get_context, ..) call of get_main and the two inject calls of
          render_main_page_html -- in the method, in a helper, a nested function or a lambda that is followed to where
          it runs -- are each under an ``except Exception`` handler (around the call or around the call of the helper)
@@ -38,9 +46,23 @@ Decided:
          is protected only where it is consumed; a placeholder stored in a plain local is read on the way on from the
          handler (not dropped by ``continue`` / by merging another name).  The same standard holds for every other
          method of the meta application that is installed in its route table (a second JSON endpoint, a renderer of
-         its own) and runs peripheral code -- also when it calls the peripheral's method directly;
+         its own) and runs peripheral code -- also when it calls the peripheral's method directly -- and for *every*
+         method of a peripheral object a routed view calls (not only the three the views call today).  The handler is
+         total as far as the shape tells: it reads from the exception only what every exception has (guarded by
+         hasattr / a nested try otherwise), and every name that only the success path of the try statement binds and
+         that is read -- outside any protection -- on the way on from the handler is bound by the handler or earlier in
+         the same iteration (else: NameError for the first section, the previous section's data for the others) -- the
+         handler itself reads no such name either and repeats no subscript lookup of the protected block.  Whether a
+         peripheral call is made depends on the peripheral at hand alone (its attributes, the outcome of its own calls,
+         configuration of the meta application): never on what other sections left in the shared context, on a flag or a
+         counter that earlier iterations set (the contexts of one group are merged: a section that can be computed is
+         computed, whatever happened to the others);
   R18.d  templates: every reference of the meta_*.html templates is escaped, except the allow-listed
-         {content|s} of meta_base.html, whose value is an ashes render of a checked section template.
+         {content|s} of meta_base.html, whose value is an ashes render of a checked section template.  Table agreement
+         for the resource listing: the template peripheral whose get_context reaches the listing renders a template with
+         a {#<key>} section named by a key of that context, every reference inside the section is a text the listing
+         code uses as a key, and -- where the shape tells -- the key under which the marker / the value is stored is
+         referenced (else the page answers 200 and shows neither marker nor values); judged as far as the shape is read.
   R18.e  textual representations: the views print host objects they know nothing about (repr() of resource values,
          middlewares, endpoints -- the repr of a bound method contains the repr of its instance --, exceptions), so no
          ``__repr__`` / ``__str__`` / ``__format__`` of a class of the tree (R18.a's value flow, run over these methods and
@@ -54,8 +76,8 @@ Decided:
          of the tree is certain to reject is put into a page context on any path (locals are followed through all
          their bindings and container stores, helpers through their return values); vacuous when the JSON view is
          provably rendered in dev mode.
-Declined: "200 for any host application" beyond R18.c / R18.f (code outside the protected calls, totality of the
-handlers, JSON encodability of attributes of host objects such as a route's render argument); secrets inside the repr
+Declined: "200 for any host application" beyond R18.c / R18.f (code outside the protected calls other than calls of
+peripheral methods, totality of the handlers beyond the clauses above, JSON encodability of attributes of host objects such as a route's render argument); secrets inside the repr
 of non-secret-named resources whose class is not part of the tree.
 """
 import ast
@@ -64,8 +86,9 @@ import os
 from ..core import AnalysisError, norm, short
 from ..cfg import expand_conds
 from .c20 import check_template_escaping, autoescape_writes
+from .. import dust
 from .common import (cfg_of, fkey, conds, has_cond, cond_texts, stmts_of, walk_body, call_tail, call_name, returns_of,
-                     raises_of, stmt_of, kwarg, protected_by, names_loaded)
+                     raises_of, stmt_of, kwarg, protected_by, names_loaded, enclosing_tries, handler_catches)
 
 META = 'clastic.meta'
 OBJECT_NAMES = {'_application', 'app', 'application', 'route', 'r', 'mw', 'request', '_route', '_meta_application', 'self'}
@@ -182,11 +205,27 @@ def resolve_callee(repo, fi, call):
                 kind, m, obj = repo.resolve(fi.mod, recv)
                 if kind == 'class' and m is not None and not m.external:
                     ci = obj
+                elif kind == 'module' and m is not None and not m.external:
+                    # ``<module of the package>.helper(..)`` / ``<module>.Class(..)``
+                    kind2, m2, obj2 = repo.resolve(m, f.attr)
+                    if kind2 == 'func' and m2 is not None and not m2.external:
+                        return obj2, 0
+                    if kind2 == 'class' and m2 is not None and not m2.external:
+                        init = repo.find_method(obj2, '__init__')
+                        if init is not None and not init.mod.external and not init.node.decorator_list:
+                            return init, 1
+                    return None, 0
             if ci is None and recv in _local_names(fi):
                 # a method call on a local of unknown class: followed when exactly one class of the module defines a
                 # method of that name (``peri.safe_get_context(..)``)
-                defs = [c.methods[f.attr] for c in fi.mod.classes.values() if f.attr in c.methods]
-                if len(defs) == 1 and not any(f.attr in c.class_attrs for c in fi.mod.classes.values()):
+                classes = list(fi.mod.classes.values())
+                defs = [c.methods[f.attr] for c in classes if f.attr in c.methods]
+                if not defs and not any(f.attr in c.class_attrs for c in classes) and f.attr not in _CONTAINER_METHODS:
+                    # none in this module: the classes of the tree this module imports by name (the class of the object may
+                    # have moved to another module of the package), with their subclasses and bases there
+                    classes = _imported_class_family(repo, fi.mod)
+                    defs = [c.methods[f.attr] for c in classes if f.attr in c.methods]
+                if len(defs) == 1 and not any(f.attr in c.class_attrs for c in classes):
                     decos = [norm(d) for d in defs[0].node.decorator_list]
                     if not decos:
                         return defs[0], 1
@@ -207,6 +246,35 @@ def resolve_callee(repo, fi, call):
     except AnalysisError:
         pass
     return None, 0
+
+
+# (method names of the builtin containers / texts: a call ``x.add(..)`` on a local is never guessed to be a method of the tree)
+_CONTAINER_METHODS = frozenset(n for t in (dict, list, set, frozenset, tuple, str, bytes) for n in dir(t))
+
+
+def _imported_class_family(repo, mod):
+    """The classes of the analysed tree ``mod`` imports by name, the classes of their modules that derive from them, and
+    their bases within the tree."""
+    c = getattr(mod, '_c18_imported_family', None)
+    if c is None:
+        c, seen = [], set()
+        for local in sorted(mod.imports):
+            if mod.imports[local][1] is None:
+                continue
+            try:
+                kind, m, obj = repo.resolve(mod, local)
+            except AnalysisError:
+                continue
+            if kind != 'class' or m is None or m.external:
+                continue
+            fam = [x for x in repo.mro(obj) if not isinstance(x, str) and not x.mod.external]
+            fam += repo.subclasses(obj, [obj.mod])
+            for x in fam:
+                if x.key not in seen:
+                    seen.add(x.key)
+                    c.append(x)
+        mod._c18_imported_family = c
+    return c
 
 
 def nested_function(fi, name):
@@ -545,7 +613,7 @@ class _Taint(object):
             f = e.func
             if isinstance(f, ast.Attribute) and f.attr == 'get_defaults_dict':
                 return {('map', 'defaults', False)}
-            if self._getattr_resources(e):
+            if self._getattr_resources(e) or self._glom_resources(e) == 'map':
                 return {('map', 'resources', False)}
             if isinstance(f, ast.Attribute) and not e.args and not e.keywords:
                 base = self.tags(f.value, env)
@@ -764,7 +832,30 @@ class _Taint(object):
 
     def is_source(self, e):
         return (isinstance(e, ast.Attribute) and e.attr == 'resources' and isinstance(e.ctx, ast.Load)) or \
-            (isinstance(e, ast.Call) and isinstance(e.func, ast.Attribute) and e.func.attr == 'get_defaults_dict') or self._getattr_resources(e)
+            (isinstance(e, ast.Call) and isinstance(e.func, ast.Attribute) and e.func.attr == 'get_defaults_dict') or self._getattr_resources(e) or \
+            bool(self._glom_resources(e))
+
+    def _glom_resources(self, e):
+        """``glom(x, 'resources')`` / ``glom(x, T.resources)`` (the spec possibly a module-level constant): the same read as
+        ``x.resources`` -> 'map'; a path spec that goes *through* the mapping (``'resources.db_secret'``) reads one of its
+        values -> 'value'; None otherwise."""
+        if not (isinstance(e, ast.Call) and isinstance(e.func, ast.Name) and e.func.id == 'glom' and len(e.args) >= 2):
+            return None
+        fi = self._cur_fi
+        if fi is None or 'glom' in _local_names(fi) or (fi.mod.imports.get('glom') or ('glom',))[0] != 'glom':
+            return None
+        spec = e.args[1]
+        if isinstance(spec, ast.Attribute) and spec.attr == 'resources' and isinstance(spec.value, ast.Name) and spec.value.id == 'T' and \
+                'T' not in _local_names(fi):
+            return 'map'
+        text = spec.value if isinstance(spec, ast.Constant) else (
+            None if isinstance(spec, ast.Name) and spec.id in _local_names(fi) else _fold_str(self.repo, fi, spec))
+        if not isinstance(text, str):
+            return None
+        segs = text.split('.')
+        if segs == ['resources']:
+            return 'map'
+        return 'value' if 'resources' in segs[:-1] else None
 
     def _getattr_resources(self, e):
         """``getattr(x, 'resources'[, default])`` (the name possibly a module-level constant): the same read as ``x.resources``."""
@@ -1039,6 +1130,9 @@ class _Taint(object):
         # occurrences
         pending = {}
         for n in nodes:
+            if isinstance(n, ast.Call) and self._glom_resources(n) == 'value':
+                self._read(fi, n, None, '%s reads a resource *value* by path (%s): secrets would be disclosed' % (fi.qualname, short(n, 60)))
+                continue
             if not isinstance(n, ast.expr) or isinstance(getattr(n, 'ctx', None), (ast.Store, ast.Del)):
                 continue
             ts = self.tags(n, env)
@@ -1218,6 +1312,8 @@ class _Taint(object):
                     kind = '%s() (judged where it is iterated)' % par.func.id
                 elif par.func.id == 'len' and not par.keywords:
                     kind = 'len()'
+        if kind is None and tag[0] == 'map' and isinstance(par, ast.Call) and len(par.args) >= 2 and par.args[1] is n and self._glom_resources(par) == 'map':
+            kind = 'glom spec (the mapping it yields is judged where the result of the call is used)'
         if kind is None and is_aliased(mod, n):
             kind = 'local alias (judged where it is used)'
         if kind is None:
@@ -1501,7 +1597,8 @@ def _report_taint(rep, rule, tn, note=''):
 
 def _r18a(rep, repo, meta):
     tn = _Taint(repo, meta)
-    for fi in list(meta.functions.values()) + _toplevel_lambdas(meta):
+    # (the views' code wherever it is defined: a helper / a peripheral may live in another module of the package)
+    for fi in _view_functions(repo, meta) + _toplevel_lambdas(meta):
         tn.scan(fi, {})
     # objects of the tree in whose fields a sensitive mapping / value was stored: every method that may run on such an
     # object is judged with the field tagged
@@ -1518,7 +1615,13 @@ def _r18a(rep, repo, meta):
         for ck, flat in todo:
             for m, me in tn.methods_with_self(tn._classes[ck]):
                 tn.scan(m, {me: {('obj', ck, flat, tuple(sorted(set(f for f, _ in flat))), 'held')}})
-    n_res = sum(1 for fi, n, _, _ in tn.reads if (isinstance(n, ast.Attribute) and n.attr == 'resources') or tn._getattr_resources(n))
+    def reads_mapping(fi, n):
+        tn._cur_fi = fi
+        try:
+            return (isinstance(n, ast.Attribute) and n.attr == 'resources') or tn._getattr_resources(n) or tn._glom_resources(n) == 'map'
+        finally:
+            tn._cur_fi = None
+    n_res = sum(1 for fi, n, _, _ in tn.reads if reads_mapping(fi, n))
     if n_res < 3:
         raise AnalysisError('meta.py: only %d reads of .resources found (floor 3)' % n_res)
     seen = set(id(n) for _, n, _, _ in tn.reads)
@@ -1526,14 +1629,35 @@ def _r18a(rep, repo, meta):
     if stray:
         raise AnalysisError('meta.py: %d read(s) of a sensitive mapping outside the analysed function bodies (first: line %s, %s)'
                             % (len(stray), getattr(stray[0], 'lineno', '?'), short(stray[0], 60)))
+    repo._c18_taint = tn
     _report_taint(rep, 'R18.a', tn)
     if not tn.sites and all(k is not None for _, _, k, _ in tn.reads):
         raise AnalysisError('meta.py: no iteration over the (name, value) pairs of a .resources mapping found (the resource listing '
                             'could not be located)')
     # contexts never hold framework objects themselves
     ctx = _context_functions(repo, meta)
-    objs = _object_names(repo, ctx)
+    objs, colls = _object_names(repo, ctx, with_colls=True)
     n_vals = 0
+
+    def object_list(fi, e):
+        """``e`` is a list of host objects itself: ``<object>.routes`` / ``.middlewares`` / ``.peripherals``, a local that names
+        one, or a list() / tuple() / sorted() / reversed() copy, a slice or an ``or`` / conditional choice of such."""
+        while True:
+            if isinstance(e, ast.Call) and isinstance(e.func, ast.Name) and e.func.id in SEQ_THROUGH | {'set', 'frozenset'} and e.args and \
+                    e.func.id not in _local_names(fi):
+                e = e.args[0]
+            elif isinstance(e, ast.Subscript) and isinstance(e.slice, ast.Slice):
+                e = e.value
+            else:
+                break
+        if isinstance(e, ast.BoolOp):
+            return any(object_list(fi, v) for v in e.values)
+        if isinstance(e, ast.IfExp):
+            return object_list(fi, e.body) or object_list(fi, e.orelse)
+        if isinstance(e, ast.Attribute) and e.attr in ('routes', 'middlewares', 'peripherals') and isinstance(e.value, ast.Name) and \
+                e.value.id in objs[fi.key]:
+            return True
+        return isinstance(e, ast.Name) and e.id in colls[fi.key]
     for fi in ctx:
         for n in walk_body(fi.node):
             vals = []
@@ -1557,7 +1681,11 @@ def _r18a(rep, repo, meta):
                 n_vals += 1
                 if isinstance(v, ast.Name) and v.id in objs[fi.key]:
                     rep.fail('R18.a', fkey(fi, 'context value ' + v.id), 'the %s object itself is stored in a page context: the JSON view would '
-                             'traverse it (resources, secret keys)' % v.id, meta, v)
+                             'traverse it (resources, secret keys)' % v.id, fi.mod, v)
+                elif object_list(fi, v):
+                    rep.fail('R18.a', fkey(fi, 'context value ' + norm(v)), 'a list of application / route / middleware objects (%s) is stored in a '
+                             'page context: the JSON encoder rejects the objects (TypeError => the JSON view answers 500), a template would print '
+                             'their reprs' % short(v, 40), fi.mod, v)
     rep.ok('R18.a', '%s::context values' % META, '%d values stored in peripheral contexts (%d functions); none is an application/route/'
            'middleware/request object' % (n_vals, len(ctx)), meta)
     rep.floor('R18.a', 5)
@@ -1625,20 +1753,137 @@ def _is_returned(fi, node):
             return False
 
 
-def _context_functions(repo, meta):
-    """The functions that build peripheral contexts: every ``get_context`` (methods, and functions installed under
-    that name), the listing functions, and the helpers of meta.py they call."""
-    out, todo = [], []
-    for q, fi in meta.functions.items():
-        if fi.name == 'get_context' or q in ('get_route_infos', 'get_resource_info', 'get_mw_infos', 'get_endpoint_info',
-                                             'get_render_info', 'get_route_arg_info'):
-            todo.append(fi)
-    for c in meta.classes.values():
+LISTING_FUNCTIONS = ('get_route_infos', 'get_resource_info', 'get_mw_infos', 'get_endpoint_info', 'get_render_info', 'get_route_arg_info')
+
+
+def _internal_func(repo, mod, name):
+    """The function of the analysed tree the module-level name ``name`` of ``mod`` denotes -- defined there, or in the
+    module of the package it is imported from (a definition that moved and is imported back); None otherwise."""
+    try:
+        kind, m, obj = repo.resolve(mod, name)
+    except AnalysisError:
+        return None
+    if kind == 'func' and m is not None and not m.external:
+        return obj
+    return None
+
+
+def _view_classes(repo, meta):
+    """The classes the views are methods of, wherever they are defined: the peripheral family (``MetaPeripheral``, its
+    subclasses, their bases within the tree) and the meta application with the bases it does not share with the plain
+    ``Application`` (a mixin the views were moved into)."""
+    out = []
+
+    def add(c):
+        if not isinstance(c, str) and not c.mod.external and not any(c is x for x in out):
+            out.append(c)
+    base = meta.cls('MetaPeripheral')
+    for c in [base] + repo.subclasses(base):
+        for x in repo.mro(c):
+            add(x)
+    for x in _meta_app_classes(repo, meta):
+        add(x)
+    return out
+
+
+def _meta_app_classes(repo, meta):
+    """The meta application, its subclasses, and the bases it does not share with the plain ``Application``."""
+    mapp = meta.cls('MetaApplication')
+    kind, m, app = repo.resolve(mapp.mod, 'Application')
+    shared = repo.mro(app) if kind == 'class' else []
+    out = [x for x in repo.mro(mapp) if not isinstance(x, str) and not x.mod.external and not any(x is y for y in shared)]
+    return out + [c for c in repo.subclasses(mapp) if not any(c is x for x in out)]
+
+
+def _installed_context_functions(repo, classes):
+    """Functions installed as a peripheral's ``get_context`` by ``get_context = staticmethod(<function>)``."""
+    out = []
+    for c in classes:
         v = c.class_attrs.get('get_context')
         if isinstance(v, ast.Call) and call_name(v) in ('staticmethod', 'classmethod') and v.args and isinstance(v.args[0], ast.Name):
-            f = meta.functions.get(v.args[0].id)
+            f = _internal_func(repo, c.mod, v.args[0].id)
             if f is not None:
-                todo.append(f)
+                out.append(f)
+    return out
+
+
+def _with_nested(fi):
+    """``fi`` and the functions defined inside it."""
+    pre = fi.qualname + '.'
+    return [fi] + [g for q, g in fi.mod.functions.items() if q.startswith(pre)]
+
+
+def _view_functions(repo, meta):
+    """The code of the views, wherever it is defined.  Everything defined in meta.py (as before), and -- a helper / a class
+    may move to another module of the package and be imported back -- the definitions the views reach outside it:
+    the methods of the view classes, the functions installed as a ``get_context``, the listing functions meta.py still
+    names, and, transitively, every function of the tree a view function hands a host object (application / route /
+    middleware / request, see ``_object_names``) or a list of them to, with the helpers that live next to such a
+    function in its module.  (The framework's own machinery -- the injector, the function builder -- is handed
+    functions and dictionaries, never a host object itself: it is not part of the views.)"""
+    c = getattr(repo, '_c18_view_functions', None)
+    if c is not None:
+        return c
+    out, keys = [], set()
+
+    def add(fi):
+        new = False
+        for g in _with_nested(fi):
+            if g.key not in keys:
+                keys.add(g.key)
+                out.append(g)
+                new = True
+        return new
+    for fi in meta.functions.values():
+        add(fi)
+    classes = _view_classes(repo, meta)
+    for ci in classes:
+        for m in ci.methods.values():
+            add(m)
+    for f in _installed_context_functions(repo, classes):
+        add(f)
+    for nm in LISTING_FUNCTIONS:
+        f = _internal_func(repo, meta, nm)
+        if f is not None:
+            add(f)
+    app_classes = _meta_app_classes(repo, meta)
+    for _ in range(6):
+        objs, colls = _object_names(repo, out, with_colls=True)
+        grew = False
+        for fi in list(out):
+            cur, cl = objs[fi.key], colls[fi.key]
+            if not any(_class_of(fi) is c for c in app_classes):
+                cur = cur - {'self', 'cls'}       # (the ``self`` of a peripheral is not a host object)
+            for n in walk_body(fi.node):
+                if not isinstance(n, ast.Call):
+                    continue
+                callee, skip = resolve_callee(repo, fi, n)
+                if callee is None or callee.key in keys or callee.mod.external:
+                    continue
+                if callee.mod is fi.mod and fi.mod is not meta:
+                    grew |= add(callee)        # a helper next to a view function that moved
+                    continue
+                args = list(n.args) + [k.value for k in n.keywords]
+                if any(isinstance(x, ast.Name) and (x.id in cur or x.id in cl) for x in args) or \
+                        any(isinstance(x, ast.Attribute) and x.attr in ('routes', 'middlewares', 'peripherals') and isinstance(x.value, ast.Name) and
+                            x.value.id in cur for x in args):
+                    grew |= add(callee)
+        if not grew:
+            break
+    repo._c18_view_functions = out
+    return out
+
+
+def _context_functions(repo, meta):
+    """The functions that build peripheral contexts: every ``get_context`` (methods, and functions installed under
+    that name), the listing functions, and the helpers among the view functions they call."""
+    views = _view_functions(repo, meta)
+    vkeys = set(f.key for f in views)
+    out, todo = [], []
+    for fi in views:
+        if fi.name == 'get_context' or (fi.qualname in LISTING_FUNCTIONS and (fi.mod is meta or _internal_func(repo, meta, fi.qualname) is fi)):
+            todo.append(fi)
+    todo.extend(_installed_context_functions(repo, _view_classes(repo, meta)))
     seen = set()
     while todo:
         fi = todo.pop()
@@ -1649,12 +1894,12 @@ def _context_functions(repo, meta):
         for n in walk_body(fi.node):
             if isinstance(n, ast.Call):
                 callee, _ = resolve_callee(repo, fi, n)
-                if callee is not None and callee.mod is meta and callee.key not in seen:
+                if callee is not None and (callee.mod is meta or callee.key in vkeys) and callee.key not in seen:
                     todo.append(callee)
     return sorted(out, key=lambda f: f.key)
 
 
-def _object_names(repo, ctx):
+def _object_names(repo, ctx, with_colls=False):
     """Per context function: the locals that hold an application / route / middleware / request object itself -- the
     conventional names, plus aliases, loop variables over ``<object>.routes`` / ``.middlewares`` / ``.peripherals`` (also
     when that list is named first or handed to a helper) and the parameters of helpers such a local is passed to."""
@@ -1705,7 +1950,7 @@ def _object_names(repo, ctx):
                     changed = True
         if not changed:
             break
-    return objs
+    return (objs, colls) if with_colls else objs
 
 
 # ------------------------------------------------------------------------------------------ R18.e
@@ -1927,7 +2172,7 @@ def _r18e(rep, repo, meta):
                     x, how = n.args[0].id, 'getattr(.., %s)' % short(n.args[1], 30)
             if x is not None and x in names:
                 rep.fail('R18.e', fkey(fi, n), '%s reads %s of the %s object: the instance dictionary (resources mapping, keys) / an attribute '
-                         'chosen at run time reaches the page' % (fi.qualname, how, x), meta, n)
+                         'chosen at run time reaches the page' % (fi.qualname, how, x), fi.mod, n)
     _report_taint(rep, 'R18.e', tn, ' (printed wherever such an object is printed: repr() of an endpoint, a bound method, a resource value, ..)')
     rep.ok('R18.e', '%s::textual representations' % META, '%d textual representations of classes of the tree and %d methods called by the views on '
            'application / route / middleware objects judged' % (n_text, n_calls), meta)
@@ -2132,7 +2377,7 @@ def _json_dev_mode(repo, meta, init):
     found = []
     for n in _walk(init):
         if isinstance(n, ast.Tuple) and len(n.elts) == 3 and isinstance(n.elts[2], ast.Name):
-            kind, m, obj = repo.resolve(meta, n.elts[2].id)
+            kind, m, obj = repo.resolve(init.mod, n.elts[2].id)
             if kind != 'value' or len(obj) != 1 or not isinstance(obj[0], ast.Call):
                 continue
             call = obj[0]
@@ -2179,7 +2424,7 @@ def _r18f(rep, repo, meta):
         rep.check('R18.f', fkey(fi, 'kinds of the context values'), not bad,
                   '%d returned value(s): texts, numbers, containers, attributes of host objects, results of calls' % len(outs) if not bad else
                   '%s puts %s (%s) into the page context: the JSON encoder rejects it (TypeError => the JSON view answers 500)'
-                  % (fi.qualname, first[0], short(first[1], 50)), meta, first[1] if bad else fi.node)
+                  % (fi.qualname, first[0], short(first[1], 50)), fi.mod, first[1] if bad else fi.node)
     rep.floor('R18.f', 8)
 
 
@@ -2285,8 +2530,10 @@ def _mw_scopes(repo, fi, coll_names, depth=0, seen=None):
             passed = [p for p, x in (b or {}).items() if is_coll(x)]
             for p in passed:
                 out.extend(_mw_scopes(repo, callee, {p}, depth + 1, seen))
-            if not passed and callee.mod is mod:
-                # the helper may be handed the application and iterate its middlewares itself
+            if not passed and (callee.mod is mod or (not callee.mod.external and any(
+                    isinstance(x, ast.Name) and (x.id in fi.params() or x.id in OBJECT_NAMES) for x in list(n.args) + [k.value for k in n.keywords]))):
+                # the helper may be handed the application and iterate its middlewares itself (a helper of the same module,
+                # or one of another module of the package that is handed the application / a parameter of this function)
                 out.extend(_mw_scopes(repo, callee, set(), depth + 1, seen))
     return out
 
@@ -2328,7 +2575,8 @@ def _self_reads(repo, fi, me, depth=0):
 
 def _r18b(rep, repo, meta):
     gm = meta.func('get_mw_infos')
-    scopes = _mw_scopes(repo, gm, set())
+    seen_scopes = set()
+    scopes = _mw_scopes(repo, gm, set(), seen=seen_scopes)
     if len(scopes) != 1:
         raise AnalysisError('get_mw_infos: %d iterations over the middlewares found (one expected)' % len(scopes))
     sf, scope, mv = scopes[0]
@@ -2336,7 +2584,40 @@ def _r18b(rep, repo, meta):
     _mw_reads(repo, sf, scope, mv, attrs)
     ok = attrs <= MW_ATTRS
     rep.check('R18.b', fkey(gm, 'attributes read'), ok, 'only %s (and repr(mw)) are read from a middleware' % sorted(attrs) if ok else
-              'get_mw_infos reads %s from middlewares' % sorted(attrs - MW_ATTRS), meta, gm.node)
+              'get_mw_infos reads %s from middlewares' % sorted(attrs - MW_ATTRS), gm.mod, gm.node)
+    # the same standard wherever else a view holds one middleware of the host (the middlewares of a route in the route
+    # listing, a second listing in a peripheral's context, ..)
+    per_fn = {}
+    for fi in _context_functions(repo, meta):
+        if fi is gm:
+            continue
+        for sf, scope, mv in _mw_scopes(repo, fi, set(), seen=seen_scopes):
+            attrs = set()
+            _mw_reads(repo, sf, scope, mv, attrs)
+            i = per_fn[sf.key] = per_fn.get(sf.key, -1) + 1
+            ok = attrs <= MW_ATTRS
+            rep.check('R18.b', fkey(sf, 'middleware attributes read') + ('' if i == 0 else '#%d' % i), ok,
+                      '%s reads only %s from the middleware held by %s' % (sf.qualname, sorted(attrs), mv) if ok else
+                      '%s reads %s from the middlewares it iterates over (shown on the meta page for every visitor)' % (sf.qualname, sorted(attrs - MW_ATTRS)),
+                      sf.mod, sf.node)
+    # .. and no view reads an attribute named like key material from any object (``<mw>.secret_key`` reached by index, by
+    # getattr with a constant name, through the request, ..)
+    n_views = 0
+    for fi in _view_functions(repo, meta):
+        n_views += 1
+        for n in _walk(fi):
+            nm = None
+            if isinstance(n, ast.Attribute) and isinstance(n.ctx, ast.Load) and _secretish(n.attr):
+                if _fold_any(repo, fi, n) is None:      # (a class-level / module-level constant -- the 'secret' fragment, the marker -- is no key)
+                    nm = n.attr
+            elif isinstance(n, ast.Call) and call_name(n) == 'getattr' and len(n.args) >= 2 and 'getattr' not in _local_names(fi):
+                v = _fold_str(repo, fi, n.args[1])
+                if v is not None and _secretish(v):
+                    nm = v
+            if nm is not None:
+                rep.fail('R18.b', fkey(fi, n), '%s reads the attribute %s (%s): key material would be shown on the meta page'
+                         % (fi.qualname, nm, short(n, 50)), fi.mod, n)
+    rep.ok('R18.b', '%s::key material' % META, 'no attribute named like key material is read in the %d view functions' % n_views, meta)
     mwbase = repo.mod('clastic.middleware.core').cls('Middleware')
     n_repr = 0
     for m in repo.all_internal_modules():
@@ -2444,9 +2725,10 @@ def _run_sites(repo, fi, node, chain, depth=0):
     return [(fi, node, chain)]
 
 
-def _inject_calls(repo, fi, wanted, chain=(), seen=None):
+def _inject_calls(repo, fi, wanted, chain=(), seen=None, views=()):
     """[(function, inject call, chain of (caller, call))] for the ``inject(<peripheral>.<method>, ..)`` calls (method in
-    ``wanted``) in ``fi`` and in the functions of the tree it calls."""
+    ``wanted``) in ``fi`` and in the functions of the tree it calls (helpers of the same module, and the view functions
+    -- keys in ``views`` -- that live in another module of the package)."""
     seen = set() if seen is None else seen
     if fi.key in seen or len(chain) > 3:
         return []
@@ -2471,8 +2753,8 @@ def _inject_calls(repo, fi, wanted, chain=(), seen=None):
             out.append((fi, c, chain))
             continue
         for callee in _callees_of(repo, fi, c):
-            if callee.mod is fi.mod and callee.name not in ('get_main', 'render_main_page_html'):
-                out.extend(_inject_calls(repo, callee, wanted, chain + ((fi, c),), seen))
+            if (callee.mod is fi.mod or callee.key in views) and callee.name not in ('get_main', 'render_main_page_html'):
+                out.extend(_inject_calls(repo, callee, wanted, chain + ((fi, c),), seen, views))
     return out
 
 
@@ -2494,6 +2776,40 @@ def _indexes_into(repo, fi, nodes, name, depth=0):
             for p, x in (bind_args(callee, skip, n) or {}).items():
                 if isinstance(x, ast.Name) and x.id == name:
                     out.extend(_indexes_into(repo, callee, list(walk_body(callee.node)), p, depth + 1))
+    return out
+
+
+# what every exception object has, whatever its class (3.11's notes are not universal)
+EXCEPTION_ATTRS = frozenset(dir(BaseException)) - {'add_note', '__notes__'}
+
+
+def _partial_exception_reads(repo, fi, nodes, name, depth=0):
+    """Attribute loads ``<exc>.<attr>`` on the exception held by local ``name`` -- in the given nodes and in the helpers of the
+    tree the exception is handed to -- for an attribute that not every exception has (``message``, ``errno``, ``code``, ..),
+    unless the read is guarded: ``hasattr(<exc>, '<attr>')`` known to hold, or inside a nested ``try`` that catches
+    AttributeError.  (``getattr(<exc>, '<attr>', <default>)`` is total and is not an attribute load.)"""
+    out = []
+    for n in nodes:
+        if isinstance(n, ast.Attribute) and isinstance(n.ctx, ast.Load) and isinstance(n.value, ast.Name) and n.value.id == name and \
+                n.attr not in EXCEPTION_ATTRS:
+            guarded = False
+            for tr, part in enclosing_tries(fi.mod, n, fi.node):
+                if part == 'body' and any(handler_catches(hh, 'AttributeError') for hh in tr.handlers) and any(nn is tr for nn in nodes):
+                    guarded = True          # (a try statement nested in the handler / in the helper)
+            if not guarded:
+                for t, pol in expr_conds(fi, n):
+                    if pol and isinstance(t, ast.Call) and call_name(t) == 'hasattr' and len(t.args) == 2 and norm(t.args[0]) == name and \
+                            isinstance(t.args[1], ast.Constant) and t.args[1].value == n.attr:
+                        guarded = True
+            if not guarded:
+                out.append(n)
+        elif isinstance(n, ast.Call) and depth < 2:
+            callee, skip = resolve_callee(repo, fi, n)
+            if callee is None:
+                continue
+            for p, x in (bind_args(callee, skip, n) or {}).items():
+                if isinstance(x, ast.Name) and x.id == name:
+                    out.extend(_partial_exception_reads(repo, callee, list(walk_body(callee.node)), p, depth + 1))
     return out
 
 
@@ -2604,7 +2920,8 @@ def _routed_methods(repo, meta, ci):
     """The methods of the meta application that are installed as an endpoint or a renderer of one of its routes:
     ``self.<m>`` inside a route tuple ``('/path', ..)`` or a ``Route('/path', ..)`` / ``GET('/path', ..)`` call, anywhere in the class."""
     out = []
-    for m in ci.methods.values():
+    family = _meta_app_classes(repo, meta)      # (a view may have moved into a base / mixin defined in another module)
+    for m in [m for c in [ci] + [c for c in family if c is not ci] for m in c.methods.values()]:
         me = (m.params() or [None])[0]
         for n in _walk(m):
             elts = None
@@ -2620,8 +2937,324 @@ def _routed_methods(repo, meta, ci):
             for x in elts[1:]:
                 if isinstance(x, ast.Attribute) and isinstance(x.value, ast.Name) and x.value.id == me:
                     t = repo.find_method(ci, x.attr)
-                    if t is not None and t.mod is meta and not any(t is y for y in out):
+                    if t is not None and (t.mod is meta or any(_class_of(t) is c for c in family)) and not any(t is y for y in out):
                         out.append(t)
+    return out
+
+
+def _peripheral_elements(fi, inherited=()):
+    """Locals of ``fi`` that hold one peripheral: the targets of the loops / comprehension generators whose iterable mentions
+    ``peripherals`` (``for peri in self.peripherals``, ``for i, peri in enumerate(..)``), plus the ``inherited`` parameters."""
+    out = set(inherited)
+    for n in _walk(fi):
+        if isinstance(n, (ast.For, ast.comprehension)) and _iter_mentions(fi, n.iter, 'peripherals'):
+            tg = n.target
+            if isinstance(tg, (ast.Tuple, ast.List)) and len(tg.elts) == 2 and isinstance(n.iter, ast.Call) and call_name(n.iter) == 'enumerate':
+                tg = tg.elts[1]
+            out |= set(x.id for x in ast.walk(tg) if isinstance(x, ast.Name))
+    return out
+
+
+def _fail_soft_wrapper(fi):
+    """The body of the function is one ``try`` statement with an ``except Exception`` handler (plus, at most, the return of a
+    plain name / constant after it): whatever it runs, it does not raise."""
+    body = list(fi.node.body)
+    if body and isinstance(body[0], ast.Expr) and isinstance(body[0].value, ast.Constant) and isinstance(body[0].value.value, str):
+        body = body[1:]
+    if not body or not isinstance(body[0], ast.Try) or not any(handler_catches(h, 'Exception') for h in body[0].handlers):
+        return False
+    if any(isinstance(x, ast.Raise) for h in body[0].handlers for x in ast.walk(h)) or body[0].finalbody:
+        return False
+    return all(isinstance(st, ast.Return) and (st.value is None or isinstance(st.value, (ast.Name, ast.Constant))) for st in body[1:])
+
+
+def _other_peripheral_calls(repo, fi, judged, views, inherited=(), chain=(), seen=None):
+    """[(function, call, chain)]: every *other* call of a method of a peripheral object -- ``<peripheral>.<m>(..)`` or
+    ``inject(<peripheral>.<m>, ..)`` with ``m`` not among the ``judged`` names -- in ``fi`` and in the helpers of the views it
+    calls (the peripheral handed on as an argument, or the helper looping over the peripherals itself)."""
+    seen = set() if seen is None else seen
+    key = (fi.key, tuple(sorted(inherited)))
+    if key in seen or len(chain) > 3:
+        return []
+    seen.add(key)
+    pn = _peripheral_elements(fi, inherited)
+    out = []
+    for c in _walk(fi):
+        if not isinstance(c, ast.Call):
+            continue
+        attr = None
+        if isinstance(c.func, ast.Attribute) and isinstance(c.func.value, ast.Name) and c.func.value.id in pn:
+            attr = c.func.attr
+        elif _is_inject(fi, c) and c.args:
+            target = c.args[0]
+            if isinstance(target, ast.Name):
+                v = _single_assignment(fi, target.id)
+                target = v if v is not None else target
+            if isinstance(target, ast.Attribute) and isinstance(target.value, ast.Name) and target.value.id in pn:
+                attr = target.attr
+        if attr is not None:
+            if attr not in judged:
+                wrapper, wskip = resolve_callee(repo, fi, c) if c.func.__class__ is ast.Attribute and not _is_inject(fi, c) else (None, 0)
+                if wrapper is not None and wskip == 1 and _fail_soft_wrapper(wrapper):
+                    # a method the tree defines for all peripherals whose body *is* the fail-soft handler: judged inside
+                    out.extend(_other_peripheral_calls(repo, wrapper, judged, views, tuple(wrapper.params()[:1]), chain + ((fi, c),), seen))
+                else:
+                    out.append((fi, c, chain))
+            continue
+        callee, skip = resolve_callee(repo, fi, c)
+        if callee is None or not (callee.mod is fi.mod or callee.key in views) or callee.name in ('get_main', 'render_main_page_html'):
+            continue
+        b = bind_args(callee, skip, c) or {}
+        passed = tuple(sorted(p for p, x in b.items() if isinstance(x, ast.Name) and x.id in pn))
+        out.extend(_other_peripheral_calls(repo, callee, judged, views, passed, chain + ((fi, c),), seen))
+    return out
+
+
+def _own_stores(stmts):
+    """Plain names stored by these statements at this level of the function (nested definitions / lambdas / comprehensions
+    have scopes of their own)."""
+    out, todo = set(), list(stmts)
+    while todo:
+        x = todo.pop()
+        if isinstance(x, (ast.FunctionDef, ast.AsyncFunctionDef, ast.ClassDef)):
+            out.add(x.name)
+            continue
+        if isinstance(x, (ast.Lambda,) + COMPS):
+            continue
+        if isinstance(x, ast.Name) and isinstance(x.ctx, ast.Store):
+            out.add(x.id)
+        elif isinstance(x, ast.ExceptHandler) and x.name:
+            out.add(x.name)
+        todo.extend(ast.iter_child_nodes(x))
+    return out
+
+
+def _success_only_reads(fi, h):
+    """Names that only the *success path* of the try statement of handler ``h`` binds and that are read, outside any fail-soft
+    protection, on the way on from the handler (the rest of the iteration / of the function): on the failure path such a
+    read raises NameError for the first section (the page answers 500) and shows what the previous section left behind
+    for the others.  [(name, the reading node)]; [] when the handler leaves the iteration itself."""
+    mod = fi.mod
+    tr = mod.parents.get(h)
+    if not isinstance(tr, ast.Try) or not h.body:
+        return []
+    leaves = isinstance(h.body[-1], (ast.Continue, ast.Return, ast.Raise, ast.Break))
+    in_try = _own_stores(tr.body + tr.orelse)
+    bound = set()
+    following = [list(tr.finalbody)]
+    cur, in_loop = tr, False
+    while cur is not None and cur is not fi.node:
+        holder = mod.parents.get(cur)
+        for fld in ('body', 'orelse', 'finalbody'):
+            block = getattr(holder, fld, None)
+            if isinstance(block, list) and any(cur is x for x in block):
+                i = [j for j, x in enumerate(block) if x is cur][0]
+                bound |= _own_stores(block[:i])          # bound earlier in the same iteration / call
+                following.append(block[i + 1:])
+        if isinstance(holder, (ast.For, ast.While)):
+            in_loop = True
+            if isinstance(holder, ast.For):
+                bound |= _own_stores([holder.target])
+            # a name that exists before the loop and that the protected block only *updates* (``n += 1``, ``seen = seen | {k}``) is
+            # an accumulator, not the result of this iteration
+            pre, up = set(fi.params()), holder
+            while up is not None and up is not fi.node:
+                outer = mod.parents.get(up)
+                for fld in ('body', 'orelse', 'finalbody'):
+                    block = getattr(outer, fld, None)
+                    if isinstance(block, list) and any(up is x for x in block):
+                        pre |= _own_stores(block[:[j for j, x in enumerate(block) if x is up][0]])
+                up = outer
+            for name in pre & in_try:
+                stores = [x for st in tr.body + tr.orelse for x in ast.walk(st) if isinstance(x, ast.Name) and x.id == name and isinstance(x.ctx, ast.Store)]
+                if stores and all(isinstance(mod.parents.get(x), ast.AugAssign) or (
+                        isinstance(mod.parents.get(x), ast.Assign) and any(isinstance(y, ast.Name) and y.id == name and isinstance(y.ctx, ast.Load)
+                                                                           for y in ast.walk(mod.parents.get(x).value))) for x in stores):
+                    bound.add(name)
+            break
+        if isinstance(holder, ast.With):
+            bound |= _own_stores([i.optional_vars for i in holder.items if i.optional_vars is not None])
+        cur = holder
+    if not in_loop:
+        bound |= set(fi.params())
+        a = fi.node.args
+        bound |= set(x.arg for x in (a.vararg, a.kwarg) if x is not None)
+    cand = in_try - bound
+    if not cand:
+        return []
+    out, rebound = [], set([h.name] if h.name else [])
+    # (the handler itself runs first: what it reads before binding it may not exist yet either)
+    for block in [list(h.body)] + ([] if leaves else following):
+        for st in block:
+            todo = [st]
+            while todo:
+                x = todo.pop()
+                if isinstance(x, (ast.FunctionDef, ast.AsyncFunctionDef, ast.ClassDef, ast.Lambda)):
+                    continue
+                if isinstance(x, ast.Name) and isinstance(x.ctx, ast.Load) and x.id in cand and x.id not in rebound and \
+                        protected_by(fi, x, 'Exception') in (None, h):
+                    out.append((x.id, x))
+                todo.extend(ast.iter_child_nodes(x))
+            if isinstance(st, (ast.Assign, ast.AnnAssign)):
+                rebound |= _own_stores(st.targets if isinstance(st, ast.Assign) else [st.target])
+        if block and block[0] is h.body[0]:
+            rebound |= _own_stores(h.body)          # on the way on, everything the handler binds is bound
+    return sorted(out, key=lambda t: (getattr(t[1], 'lineno', 0), getattr(t[1], 'col_offset', 0)))
+
+
+def _depends_on_peripheral_only(fi, e, pn, region=None, depth=0):
+    """The first local read by ``e`` that may carry something else than the peripheral at hand; None when there is none.
+    Harmless are: the peripheral itself (names in ``pn``) and the results of calls of its methods (its own outcome), fields
+    of the meta application this function never assigns (configuration), the exception a handler of this iteration holds,
+    and locals that name such things -- bound once anywhere, or only inside the current iteration (``region``: ids of the
+    nodes of the loop body; None: the whole function is one iteration), and never changed afterwards."""
+    mod = fi.mod
+
+    def peripheral_call(c):
+        if not isinstance(c, ast.Call):
+            return False
+        f = c.func
+        if isinstance(f, ast.Attribute) and isinstance(f.value, ast.Name) and f.value.id in pn:
+            return True
+        return _is_inject(fi, c) and bool(c.args) and isinstance(c.args[0], ast.Attribute) and isinstance(c.args[0].value, ast.Name) and c.args[0].value.id in pn
+
+    def check(x):
+        if x.id not in _local_names(fi) or x.id in pn:
+            return None
+        par = mod.parents.get(x)
+        if x.id in ('self', 'cls') and x.id in fi.params()[:1] and isinstance(par, ast.Attribute) and par.value is x and not any(
+                isinstance(y, ast.Attribute) and y.attr == par.attr and isinstance(y.ctx, (ast.Store, ast.Del)) for y in ast.walk(fi.node)):
+            return None
+        if any(isinstance(y, ast.ExceptHandler) and y.name == x.id and (region is None or id(y) in region) for y in ast.walk(fi.node)) and \
+                not any(isinstance(y, ast.Name) and y.id == x.id and isinstance(y.ctx, ast.Store) for y in ast.walk(fi.node)):
+            return None
+        stores = [y for y in ast.walk(fi.node) if isinstance(y, ast.Name) and y.id == x.id and isinstance(y.ctx, (ast.Store, ast.Del))]
+        if depth < 3 and stores and x.id not in fi.params() and not _maybe_mutated(fi, x.id) and \
+                (len(stores) == 1 or (region is not None and all(id(y) in region for y in stores))):
+            vals = []
+            for y in stores:
+                asg = mod.parents.get(y)
+                if isinstance(asg, ast.Assign) and len(asg.targets) == 1 and asg.targets[0] is y:
+                    vals.append(asg.value)
+                else:
+                    return x
+            if all(_depends_on_peripheral_only(fi, v, pn, region, depth + 1) is None for v in vals):
+                return None
+        return x
+
+    def first_bad(n):
+        if peripheral_call(n):
+            return None
+        if isinstance(n, ast.Name):
+            return check(n) if isinstance(n.ctx, ast.Load) else None
+        if isinstance(n, (ast.Lambda, ast.FunctionDef, ast.AsyncFunctionDef)):
+            return None
+        for ch in ast.iter_child_nodes(n):
+            r = first_bad(ch)
+            if r is not None:
+                return r
+        return None
+    return first_bad(e)
+
+
+def _section_conditions(links):
+    """[(condition, function, the local it reads)]: the conditions -- inside the loop over the peripherals, down to the
+    protected call -- under which the call is made and that read something else than the peripheral at hand (what an
+    earlier section left in the shared context, a flag, a counter).  ``links``: (function, node) from the view down to the
+    call, through the helpers that make it."""
+    out = []
+    pn, started = set(), False
+    for j, (lf, ln) in enumerate(links):
+        loops = [l for l in _loops_around(lf, ln) if _iter_mentions(lf, l.iter, 'peripherals')]
+        pn = _peripheral_elements(lf, pn)
+        base, region = set(), None
+        if loops and not started:
+            started = True
+            outer = loops[-1]
+            anchor_stmt = outer if isinstance(outer, ast.For) else stmt_of(lf.mod, outer)
+            holder = outer if isinstance(outer, ast.For) else lf.mod.parents.get(outer)
+            region = set(id(x) for x in ast.walk(holder)) - (set(id(x) for x in ast.walk(outer.iter)) if isinstance(outer, ast.For) else set())
+            try:
+                base = set((norm(t), p) for t, p in conds(lf, anchor_stmt))
+            except AnalysisError:
+                base = set()
+        if started:
+            # (what the framework injects into the routed view itself -- the request, arguments of the URL, resources -- is the same
+            # for every section; ``context``, by the framework's convention, is what the endpoint returned: the shared state)
+            given = set(p for p in lf.params() if p != 'context' and not _maybe_mutated(lf, p)) if j == 0 else set()
+            for t, p in expr_conds(lf, ln):
+                if (norm(t), p) in base or isinstance(t, ast.BoolOp):
+                    continue
+                x = _depends_on_peripheral_only(lf, t, pn | given, region)
+                if x is not None:
+                    out.append((t, lf, x))
+        # the peripheral handed on to the helper of the next link
+        if j + 1 < len(links) and isinstance(ln, ast.Call):
+            nxt = links[j + 1][0]
+            passed = set()
+            for skip in (1, 0):
+                b = bind_args(nxt, skip, ln)
+                if b is not None:
+                    passed = set(p for p, x in b.items() if isinstance(x, ast.Name) and x.id in pn)
+                    if passed or skip == 0:
+                        break
+            if isinstance(ln.func, ast.Attribute) and isinstance(ln.func.value, ast.Name) and ln.func.value.id in pn and nxt.params():
+                passed.add(nxt.params()[0])          # ``<peripheral>.method(..)``: its ``self``
+            pn = passed
+        else:
+            pn = set()
+    return out
+
+
+_READ_ONLY_METHODS = {'get', 'keys', 'items', 'values', 'copy', 'index', 'count', 'startswith', 'endswith', 'lower', 'upper', 'strip', 'split', 'join',
+                      'format', 'isdisjoint', 'issubset', 'issuperset', 'union', 'intersection', 'difference'}
+
+
+def _maybe_mutated(fi, name):
+    """The object the local ``name`` holds may change after it was bound: a method other than the read-only ones of the builtin
+    containers / texts is called on it, one of its slots / attributes is stored, it is the target of an augmented
+    assignment, or it is handed to a call (which may keep / change it)."""
+    mod = fi.mod
+    for x in ast.walk(fi.node):
+        if not (isinstance(x, ast.Name) and x.id == name):
+            continue
+        par = mod.parents.get(x)
+        if isinstance(x.ctx, ast.Store):
+            if isinstance(par, ast.AugAssign):
+                return True
+            continue
+        if isinstance(par, ast.Attribute) and par.value is x:
+            gp = mod.parents.get(par)
+            if isinstance(par.ctx, (ast.Store, ast.Del)):
+                return True
+            if isinstance(gp, ast.Call) and gp.func is par and par.attr not in _READ_ONLY_METHODS:
+                return True
+        elif isinstance(par, ast.Subscript) and par.value is x and isinstance(par.ctx, (ast.Store, ast.Del)):
+            return True
+        elif isinstance(par, ast.Call) and any(x is a for a in par.args) and not (
+                isinstance(par.func, ast.Name) and par.func.id in KEY_ONLY | SCALAR_CALLS | {'dict', 'getattr', 'hasattr', 'isinstance', 'callable', 'type'}):
+            return True
+        elif isinstance(par, ast.keyword):
+            return True
+    return False
+
+
+def _repeated_lookups(fi, h):
+    """Subscript loads in the handler that repeat, letter for letter, a subscript load of the protected block (what failed
+    there fails again here, now outside any protection), unless a ``try`` nested in the handler catches the lookup error."""
+    tr = fi.mod.parents.get(h)
+    if not isinstance(tr, ast.Try):
+        return []
+    tried = set(norm(n) for st in tr.body for n in ast.walk(st) if isinstance(n, ast.Subscript) and isinstance(n.ctx, ast.Load) and
+                not isinstance(n.slice, ast.Slice))
+    inner = [x for st in h.body for x in ast.walk(st)]
+    out = []
+    for n in inner:
+        if isinstance(n, ast.Subscript) and isinstance(n.ctx, ast.Load) and norm(n) in tried:
+            hh = protected_by(fi, n, 'KeyError')
+            if hh is not None and any(hh is x for x in inner):
+                continue
+            out.append(n)
     return out
 
 
@@ -2639,10 +3272,91 @@ def _r18c(rep, repo, meta):
         if r is not gmn and r is not rmp:
             anchors.append((r, PERIPHERAL_CALLS, 0))
     rep.ok('R18.c', '%s::routed methods' % META, 'methods of the meta application installed in its routes: %s' % sorted(r.name for r in routed), meta)
+    views = set(f.key for f in _view_functions(repo, meta))
+
+    def judge(anchor, fi, c, node, chain):
+        # the handler may sit around the call itself or around the call of the helper that makes it
+        links = list(chain) + [(fi, node)]          # outermost first
+        h, hj, hf = None, None, None
+        for j in range(len(links) - 1, -1, -1):
+            if j < len(links) - 1 and _is_generator(links[j + 1][0]) and not _consumed_in_place(links[j][0], links[j][1]):
+                break      # the call only creates the generator: its body runs wherever it is consumed
+            h = protected_by(links[j][0], links[j][1], 'Exception')
+            if h is not None:
+                hj, hf = j, links[j][0]
+                break
+        in_helper = hf is not anchor
+        ok = h is not None and not any(isinstance(r, ast.Raise) for r in ast.walk(h)) and _substitutes(hf, h, in_helper)
+        if ok and not in_helper and any(isinstance(s, (ast.Return, ast.Break)) for s in ast.walk(h)):
+            ok = False      # leaving the loop from the handler drops the remaining sections
+        rep.check('R18.c', fkey(anchor, c), ok, 'a failing peripheral is replaced by a placeholder (handler: except %s%s)'
+                  % (norm(h.type) if h else None, ' in %s' % hf.qualname if h is not None and in_helper else '') if ok else
+                  'a failing peripheral call %s fails the whole meta page' % short(c), fi.mod, c)
+        if ok and not in_helper:
+            dropped = _placeholder_dropped(hf, h)
+            rep.check('R18.c', fkey(anchor, c) + '::placeholder reported', not dropped, 'the placeholder is read after the handler' if not dropped else
+                      'the placeholder stored in %s by the handler is never read (the handler leaves the iteration / the code after the try '
+                      'statement reads other names): the failing section is not reported, or shows what the previous one left behind'
+                      % sorted(dropped), hf.mod, h)
+        if ok:
+            # what the code after the try statement reads is bound on the failure path as well
+            stale = _success_only_reads(hf, h)
+            rep.check('R18.c', fkey(anchor, c) + '::result bound on the failure path', not stale,
+                      'every name read after the try statement is bound by the handler (or earlier in the same iteration)' if not stale else
+                      '%s is bound only where the protected block succeeds, and is read on the failure path -- in the handler or after the try statement (%s): when the section fails '
+                      'the read raises NameError (the page answers 500) or shows what the previous section left behind'
+                      % (stale[0][0], short(stmt_of(hf.mod, stale[0][1]), 50)), hf.mod, stale[0][1] if stale else h)
+        if h is not None and h.name:
+            # the placeholder is built from the repr / type of the exception, never by indexing into it (``e.args``
+            # may be empty): the handler itself must not be able to fail on the exception it reports
+            hnodes = [x for s in h.body for x in ast.walk(s)]
+            idx = _indexes_into(repo, hf, hnodes, h.name)
+            rep.check('R18.c', fkey(anchor, c) + '::handler total', not idx, 'the handler does not index into the exception' if not idx else
+                      'the handler indexes into the caught exception (%s): an exception without arguments makes the handler itself '
+                      'fail and the page answers 500' % short(idx[0], 50), hf.mod, idx[0] if idx else h)
+            again = _repeated_lookups(hf, h)
+            rep.check('R18.c', fkey(anchor, c) + '::handler does not repeat a lookup', not again,
+                      'the handler repeats no lookup of the protected block' if not again else
+                      'the handler repeats the lookup %s of the protected block: when that lookup is what failed it fails again, inside the '
+                      'handler, and the page answers 500' % short(again[0], 50), hf.mod, again[0] if again else h)
+            # .. and reads from it only what every exception has: the handler catches exceptions of any class
+            part = _partial_exception_reads(repo, hf, hnodes, h.name)
+            rep.check('R18.c', fkey(anchor, c) + '::handler reads universal attributes', not part,
+                      'the handler reads from the exception only what every exception has' if not part else
+                      'the handler reads %s from the caught exception: not every exception has that attribute (the handler catches all of them), '
+                      'the AttributeError is raised inside the handler and the page answers 500' % short(part[0], 50), hf.mod, part[0] if part else h)
+        # the protected call runs once per peripheral (one bad section does not hide the others): on the way from the
+        # anchor to the handler there is a loop over the peripherals, and the try statement is inside it
+        ok = False
+        for j, (lf, ln) in enumerate(links):
+            if hj is not None and j > hj:
+                break
+            for l in _loops_around(lf, ln):
+                if not _iter_mentions(lf, l.iter, 'peripherals'):
+                    continue
+                if j == hj:
+                    tr = lf.mod.parents.get(h)
+                    holder = l if isinstance(l, ast.For) else lf.mod.parents.get(l)
+                    if not any(tr is x for x in ast.walk(holder)):
+                        continue
+                ok = True
+        rep.check('R18.c', fkey(anchor, c) + '::per section', ok, 'handled per peripheral' if ok else 'not handled per peripheral', fi.mod, c)
+        # .. and whether it runs depends on the peripheral alone: a section that can be computed is computed, whatever
+        # happened to the others (the contexts of one group are merged: "this one failed" there means "some of them did")
+        dep = _section_conditions(links)
+        rep.check('R18.c', fkey(anchor, c) + '::computed for every peripheral', not dep,
+                  'inside the loop over the peripherals the call is unconditional (or depends on the peripheral at hand only)' if not dep else
+                  'the peripheral call %s is made only under the condition %s, which reads %s -- not the peripheral at hand but what other '
+                  'sections left behind: a section that can be computed is dropped because another one could not'
+                  % (short(c, 40), short(dep[0][0], 40), dep[0][2].id), dep[0][1].mod if dep else fi.mod, dep[0][0] if dep else c)
+
     for anchor, wanted, floor in anchors:
-        inj = _inject_calls(repo, anchor, wanted)
+        inj = _inject_calls(repo, anchor, wanted, views=views)
         if len(inj) < floor:
             raise AnalysisError('%s: %d inject calls of %s found (floor %d)' % (anchor.qualname, len(inj), '/'.join(wanted), floor))
+        # every other method of a peripheral the view calls is peripheral code just the same
+        done = set(id(c) for _, c, _ in inj)
+        inj += [(fi, c, chain) for fi, c, chain in _other_peripheral_calls(repo, anchor, wanted, views) if id(c) not in done]
         placed = []
         for fi, c, chain in inj:
             sites = _run_sites(repo, fi, c, chain)
@@ -2650,52 +3364,7 @@ def _r18c(rep, repo, meta):
                 raise AnalysisError('%s: %s is made from a lambda whose place of execution cannot be followed' % (anchor.qualname, short(c, 60)))
             placed.extend((sfi, c, snode, schain) for sfi, snode, schain in sites)
         for fi, c, node, chain in placed:
-            # the handler may sit around the call itself or around the call of the helper that makes it
-            links = list(chain) + [(fi, node)]          # outermost first
-            h, hj, hf = None, None, None
-            for j in range(len(links) - 1, -1, -1):
-                if j < len(links) - 1 and _is_generator(links[j + 1][0]) and not _consumed_in_place(links[j][0], links[j][1]):
-                    break      # the call only creates the generator: its body runs wherever it is consumed
-                h = protected_by(links[j][0], links[j][1], 'Exception')
-                if h is not None:
-                    hj, hf = j, links[j][0]
-                    break
-            in_helper = hf is not anchor
-            ok = h is not None and not any(isinstance(r, ast.Raise) for r in ast.walk(h)) and _substitutes(hf, h, in_helper)
-            if ok and not in_helper and any(isinstance(s, (ast.Return, ast.Break)) for s in ast.walk(h)):
-                ok = False      # leaving the loop from the handler drops the remaining sections
-            rep.check('R18.c', fkey(anchor, c), ok, 'a failing peripheral is replaced by a placeholder (handler: except %s%s)'
-                      % (norm(h.type) if h else None, ' in %s' % hf.qualname if h is not None and in_helper else '') if ok else
-                      'a failing peripheral call %s fails the whole meta page' % short(c), meta, c)
-            if ok and not in_helper:
-                dropped = _placeholder_dropped(hf, h)
-                rep.check('R18.c', fkey(anchor, c) + '::placeholder reported', not dropped, 'the placeholder is read after the handler' if not dropped else
-                          'the placeholder stored in %s by the handler is never read (the handler leaves the iteration / the code after the try '
-                          'statement reads other names): the failing section is not reported, or shows what the previous one left behind'
-                          % sorted(dropped), meta, h)
-            if h is not None and h.name:
-                # the placeholder is built from the repr / type of the exception, never by indexing into it (``e.args``
-                # may be empty): the handler itself must not be able to fail on the exception it reports
-                idx = _indexes_into(repo, hf, [x for s in h.body for x in ast.walk(s)], h.name)
-                rep.check('R18.c', fkey(anchor, c) + '::handler total', not idx, 'the handler does not index into the exception' if not idx else
-                          'the handler indexes into the caught exception (%s): an exception without arguments makes the handler itself '
-                          'fail and the page answers 500' % short(idx[0], 50), meta, idx[0] if idx else h)
-            # the protected call runs once per peripheral (one bad section does not hide the others): on the way from the
-            # anchor to the handler there is a loop over the peripherals, and the try statement is inside it
-            ok = False
-            for j, (lf, ln) in enumerate(links):
-                if hj is not None and j > hj:
-                    break
-                for l in _loops_around(lf, ln):
-                    if not _iter_mentions(lf, l.iter, 'peripherals'):
-                        continue
-                    if j == hj:
-                        tr = meta.parents.get(h)
-                        holder = l if isinstance(l, ast.For) else meta.parents.get(l)
-                        if not any(tr is x for x in ast.walk(holder)):
-                            continue
-                    ok = True
-            rep.check('R18.c', fkey(anchor, c) + '::per section', ok, 'handled per peripheral' if ok else 'not handled per peripheral', meta, c)
+            judge(anchor, fi, c, node, chain)
     rep.floor('R18.c', 6)
 
 
@@ -2714,6 +3383,182 @@ def _with_locals(fi, expr, depth=0):
     return out
 
 
+def _reached_views(repo, fi, vkeys, depth=0, seen=None):
+    """The view functions ``fi`` reaches through calls the tree resolves (itself included), with the functions nested in them."""
+    seen = {} if seen is None else seen
+    if fi.key in seen or depth > 4:
+        return seen
+    for g in _with_nested(fi):
+        seen[g.key] = g
+    for g in _with_nested(fi):
+        for n in walk_body(g.node):
+            if isinstance(n, ast.Call):
+                callee, _ = resolve_callee(repo, g, n)
+                if callee is not None and callee.key in vkeys:
+                    _reached_views(repo, callee, vkeys, depth + 1, seen)
+    return seen
+
+
+def _strings_of(repo, fi):
+    """Every text the function can use as a key (a liberal superset): its string constants (whole, and the identifiers inside
+    them: ``namedtuple('Row', 'key value')``), the keyword names of the calls it makes, the module- / class-level
+    constants it names (the texts inside the expressions that define them), and the fields of the classes of the tree it
+    names (class attributes, annotated fields, ``self.<field>`` stores)."""
+    import re
+    out = set()
+
+    def texts(expr):
+        for n in ast.walk(expr):
+            if isinstance(n, ast.Constant) and isinstance(n.value, str):
+                out.add(n.value)
+                out.update(re.findall(r'[A-Za-z_][A-Za-z_0-9]*', n.value) if len(n.value) < 200 else [])
+            elif isinstance(n, ast.Call):
+                out.update(k.arg for k in n.keywords if k.arg is not None)
+    texts(fi.node)
+    loc = _local_names(fi)
+    for n in ast.walk(fi.node):
+        if not (isinstance(n, ast.Name) and isinstance(n.ctx, ast.Load)) or n.id in loc:
+            continue
+        try:
+            kind, m, obj = repo.resolve(fi.mod, n.id)
+        except AnalysisError:
+            continue
+        if m is None or m.external:
+            continue
+        if kind == 'value':
+            for v in obj:
+                if isinstance(v, ast.AST):
+                    texts(v)
+        elif kind == 'class':
+            for c in [x for x in repo.mro(obj) if not isinstance(x, str) and not x.mod.external]:
+                out.update(c.class_attrs)
+                for st in c.node.body:
+                    if isinstance(st, ast.AnnAssign) and isinstance(st.target, ast.Name):
+                        out.add(st.target.id)
+                for mth in c.methods.values():
+                    out.update(x.attr for x in ast.walk(mth.node) if isinstance(x, ast.Attribute) and isinstance(x.ctx, ast.Store))
+                    texts(mth.node)
+    return out
+
+
+def _key_of_value(fi, node, depth=0):
+    """The constant key under which the value of ``node`` is stored in a row -- ``{'k': node}``, ``dict(k=node)`` / ``.update(k=node)``,
+    ``row['k'] = node`` -- directly or through the one local it is assigned to; None when that cannot be told."""
+    mod = fi.mod
+    cur = node
+    while True:
+        par = mod.parents.get(cur)
+        if isinstance(par, ast.IfExp) and par.test is not cur:
+            cur = par
+            continue
+        break
+    if isinstance(par, ast.Dict):
+        for k, v in zip(par.keys, par.values):
+            if v is cur and isinstance(k, ast.Constant) and isinstance(k.value, str):
+                return k.value
+        return None
+    if isinstance(par, ast.keyword) and par.arg is not None:
+        call = mod.parents.get(par)
+        if isinstance(call, ast.Call) and (call_name(call) == 'dict' or call_tail(call) == 'update'):
+            return par.arg
+        return None
+    if isinstance(par, ast.Assign) and par.value is cur and len(par.targets) == 1:
+        t = par.targets[0]
+        if isinstance(t, ast.Subscript) and isinstance(t.slice, ast.Constant) and isinstance(t.slice.value, str):
+            return t.slice.value
+        if isinstance(t, ast.Name) and depth < 2:
+            found = set()
+            for x in _walk(fi):
+                if isinstance(x, ast.Name) and x.id == t.id and isinstance(x.ctx, ast.Load):
+                    k = _key_of_value(fi, x, depth + 1)
+                    if k is not None:
+                        found.add(k)
+            return found.pop() if len(found) == 1 else None
+    return None
+
+
+def _listing_agreement(rep, repo, meta, files, pkg_dir):
+    """What the resource listing produces is what its section template shows (table agreement).  The template peripheral
+    whose ``get_context`` reaches the listing stores it under a constant key; its template has a ``{#<key>}`` section; every
+    reference inside that section is a text the listing code can use as a row key; and -- where the shape tells under
+    which key the redaction marker is stored -- that key is referenced.  Else the page answers 200 and lists nothing
+    (neither the redaction marker nor the values of the other resources).  Judged as far as the shape can be read."""
+    tn = getattr(repo, '_c18_taint', None)
+    if tn is None:
+        tn = _Taint(repo, meta)
+        for fi in _view_functions(repo, meta) + _toplevel_lambdas(meta):
+            tn.scan(fi, {})
+    sites = [st for st in tn.sites if st.markers and st.uses]
+    if not sites:
+        return
+    site = sites[0]
+    vkeys = set(f.key for f in _view_functions(repo, meta))
+    shown = []
+    for c in _view_classes(repo, meta):
+        gc = repo.find_method(c, 'get_context')
+        tp = c.class_attrs.get('template_path')
+        if gc is None or tp is None or _class_of(gc) is not c:
+            continue
+        reached = _reached_views(repo, gc, vkeys)
+        if site.fi.key in reached and site.fi is not gc:
+            shown.append((c, gc, repo.try_fold(tp, c.mod), reached))
+    if len(shown) != 1:
+        rep.decline('R18.d table agreement: the peripheral that shows the resource listing was not identified (%d candidates)' % len(shown))
+        return
+    c, gc, tp, reached = shown[0]
+    if tp not in files:
+        return          # (judged above: not a shipped template)
+    listing = [f for k, f in reached.items() if k != gc.key and not any(f is g for g in _with_nested(gc))]
+    strings = set()
+    for f in listing:
+        strings |= _strings_of(repo, f)
+    ctx_keys = _strings_of(repo, gc)
+    with open(os.path.join(pkg_dir, tp), encoding='utf-8') as fh:
+        tags = dust.tokenize(repo, fh.read())
+    sections = {}          # name of a {#..} section named by a context key -> names referenced inside it
+    stack = []
+    for t in tags:
+        name = (t.refpath or '').lstrip('.').split('.')[0]
+        if t.kind == 'close':
+            if stack:
+                stack.pop()
+            continue
+        opener = t.kind == 'section' and not t.selfclosing
+        for sec, depth in [(sec, len(stack) - i - 1) for i, sec in enumerate(stack) if sec in sections]:
+            if depth == 0 and name and (t.kind == 'ref' or (opener and t.symbol in '#?^')):
+                sections[sec].add(name)
+        if opener:
+            if t.symbol == '#' and (t.refpath or '').lstrip('.') in ctx_keys and not any(s2 in sections for s2 in stack):
+                sections.setdefault((t.refpath or '').lstrip('.'), set())
+                stack.append((t.refpath or '').lstrip('.'))
+            else:
+                stack.append(None)
+    key = '%s::%s::resource listing' % (META, c.name)
+    rep.check('R18.d', key + '::section', bool(sections), '%s iterates over %s, stored by %s.get_context' % (tp, sorted(sections), c.name) if sections else
+              '%s.get_context stores the resource listing under %s, but %s has no {#..} section of that name: the page lists no resource at all'
+              % (c.name, sorted(ctx_keys), tp), gc.mod, gc.node)
+    if not sections:
+        return
+    refs = set(x for v in sections.values() for x in v)
+    unknown = sorted(refs - strings)
+    rep.check('R18.d', key + '::references are row keys', not unknown, 'every reference inside {#%s} (%s) is a key the listing code uses'
+              % ('/'.join(sorted(sections)), sorted(refs)) if not unknown else
+              '%s references %s inside {#%s}, which the code of the listing (%s) never uses as a key: the column stays empty -- neither the '
+              'redaction marker nor the values of the other resources are on the page'
+              % (tp, unknown, '/'.join(sorted(sections)), ', '.join(sorted(f.qualname for f in listing))[:80]), site.fi.mod, site.fi.node)
+    vkeys_found = set()
+    for f, n, _ in site.markers:
+        k = _key_of_value(f, n)
+        if k is not None:
+            vkeys_found.add(k)
+    if len(vkeys_found) == 1:
+        vk = sorted(vkeys_found)[0]
+        rep.check('R18.d', key + '::value column shown', vk in refs, 'the key %r, under which the marker / the value is stored, is referenced by %s' % (vk, tp)
+                  if vk in refs else 'the rows store the marker / the value under %r, which %s never references inside {#%s} (it shows %s): the page '
+                  'answers 200 but neither the redaction marker nor the values of the other resources are on it'
+                  % (vk, tp, '/'.join(sorted(sections)), sorted(refs)), site.fi.mod, site.fi.node)
+
+
 def _r18d(rep, repo, meta):
     pkg_dir = os.path.join(repo.root, 'clastic')
     files = sorted(f for f in os.listdir(pkg_dir) if f.startswith('meta_') and f.endswith('.html'))
@@ -2722,10 +3567,11 @@ def _r18d(rep, repo, meta):
     # which template does each ashes peripheral render?
     sect = {}
     amp = meta.cls('AshesMetaPeripheral')
-    for c in meta.classes.values():
+    # (the template peripherals wherever they are defined: a peripheral may live in another module of the package)
+    for c in sorted(dict((c.key, c) for c in list(meta.classes.values()) + repo.subclasses(amp)).values(), key=lambda c: (c.mod is not meta, c.key)):
         if c is not amp and amp in repo.mro(c):
             tp = c.class_attrs.get('template_path')
-            sect[c.name] = repo.try_fold(tp, meta) if tp is not None else None
+            sect[c.name] = repo.try_fold(tp, c.mod) if tp is not None else None
     rend = amp.methods.get('render_main_page_html')
     init = amp.methods.get('__init__')
     if rend is None or init is None:
@@ -2733,12 +3579,12 @@ def _r18d(rep, repo, meta):
     ok = all(isinstance(r.value, ast.Call) and isinstance(r.value.func, ast.Attribute) and r.value.func.attr == 'render' and
              any(norm(x) == 'self.loaded_template' for x in _with_locals(rend, r.value.func.value)) for r in returns_of(rend)) and returns_of(rend)
     rep.check('R18.d', fkey(rend), bool(ok), 'section HTML is an ashes render of the peripheral\'s own template' if ok else
-              'AshesMetaPeripheral.render_main_page_html does not return self.loaded_template.render(...)', meta, rend.node)
+              'AshesMetaPeripheral.render_main_page_html does not return self.loaded_template.render(...)', rend.mod, rend.node)
     loads = [s for s in stmts_of(init.node) if isinstance(s, ast.Assign) and any(norm(t) == 'self.loaded_template' for t in s.targets)]
     if not loads:
         raise AnalysisError('AshesMetaPeripheral.__init__: assignment of self.loaded_template not found')
     ok = all(any('self.template_path' in norm(x) for x in _with_locals(init, s.value)) for s in loads)
-    rep.check('R18.d', fkey(init), ok, 'loaded_template is loaded from self.template_path' if ok else 'loaded_template does not come from template_path', meta, init.node)
+    rep.check('R18.d', fkey(init), ok, 'loaded_template is loaded from self.template_path' if ok else 'loaded_template does not come from template_path', init.mod, init.node)
     for cname, tp in sorted(sect.items()):
         rep.check('R18.d', '%s::%s.template_path' % (META, cname), tp in files, '%s renders %s' % (cname, tp) if tp in files else
                   '%s renders %r, which is not a shipped meta template' % (cname, tp), meta)
@@ -2747,7 +3593,7 @@ def _r18d(rep, repo, meta):
         raise AnalysisError('MetaPeripheral.render_main_page_html not found')
     ok = all(isinstance(r.value, ast.Constant) and r.value.value is None for r in returns_of(base_render))
     rep.check('R18.d', fkey(base_render), ok, 'non-template peripherals contribute no raw content' if ok else
-              'MetaPeripheral.render_main_page_html returns raw content', meta, base_render.node)
+              'MetaPeripheral.render_main_page_html returns raw content', base_render.mod, base_render.node)
 
     class _F(object):
         def __init__(self, name):
@@ -2771,6 +3617,7 @@ def _r18d(rep, repo, meta):
         raise AnalysisError('MetaApplication.__init__: assignment of self._main_page_render not found')
     ok = all(names_base(s.value) for s in renders)
     rep.check('R18.d', fkey(mi, 'main template'), ok, 'the main page is rendered from meta_base.html' if ok else 'the main page template changed', meta, mi.node)
+    _listing_agreement(rep, repo, meta, files, pkg_dir)
     rep.floor('R18.d', 40)
 
 
